@@ -35,7 +35,8 @@ Proof. exact op_heals. Qed.
 Print Assumptions C12_heals.
 Theorem C12_structure :
   tracker_spawn_bracketed_by_sigmask = true /\ ensure_running_relaunches_under_lock = true
-  /\ maybe_unlink_ensures_running = true /\ sig_safe = true.
+  /\ maybe_unlink_ensures_running = true /\ sig_safe = true
+  /\ child_installs_tracker_handle_before_main_module = true.
 Proof. repeat split; reflexivity. Qed.
 Print Assumptions C12_structure.
 Example C12_example :
